@@ -708,6 +708,14 @@ class C05(Prop):
                         continue            # (sorting sorted labels / unsorting unsorted ones changes no cached answer)
                     yield {"op": "hist", "array": base(rng.choice([1, 2]), order), "forms": [], "probes": cheap, "theme": "gridA",
                            "steps": [["query", 0, rng.choice(["is_monotonic", "add_other", "union"]), 0], ["set_labels", 0, 0, via, how]]}
+        # (C) a call that resolves a dimension BY NAME, an in-place renaming that moves that name to another position, then
+        # name-based probes on the same object (anything remembered per object about names must follow the renaming)
+        byname = {"dim": ["sum_name", "is_monotonic"], "arr": ["transpose_names", "labels", "flatten"]}
+        for rank in (2, 3, 3):
+            for q in ("swapaxes_name", "sum_name"):
+                for via in ("dims_swap", "dims_swap_dict"):
+                    yield {"op": "hist", "array": base(rank, rng.choice(["inc", "shuf"])), "forms": [], "probes": byname, "theme": "gridC",
+                           "steps": [["query", 0, q, rng.randrange(rank)], ["rename", 0, rng.randrange(rank), via]]}
         derivs = [["slice", 0, 0, 0, 3], ["slice", 0, 0, 1, 4], ["take", 0, 0, [0, 1, 2]], ["take", 0, 0, [2, 0, 1]], ["index", 0, 1, 0, "pos"],
                   ["index", 0, 1, 1, "label"], ["transpose", 0], ["copy", 0], ["squeeze", 0], ["newaxis", 0, 0, 0], ["swapaxes", 0, 0, 1],
                   ["reduce", 0, 1, "sum"], ["cum", 0, 1, "cumsum"], ["reindex", 0, 1, "rev"], ["sort_key", 0, 0, 4], ["arith", 0, 0, "mul2", 0],
